@@ -1,4 +1,5 @@
 import QscModel.Gen.Sigma
+import QscProofs.Tactics
 import Mathlib.Algebra.Module.LinearMap.Defs
 import Mathlib.Algebra.Module.Pi
 import Mathlib.Data.Real.Basic
@@ -69,7 +70,7 @@ theorem residual_eq (D : Arr n →ₗ[ℝ] Arr n) (base : Ops (Arr n)) (P : Par 
         + (x 0 + P.helicity * P.nfp) * (P.ees j * P.ees j + 1 + sig P.sigma0 x j * sig P.sigma0 x j) - rhs P j := by
   have h0 : Fin.ofNat (n+1) 0 = 0 := rfl
   simp only [residual, Gen.Sigma.residual, qsc_local, ops, inp, sig, rhs, h0, Pi.add_apply, Pi.sub_apply, Pi.mul_apply, Pi.div_apply,
-    Pi.neg_apply, Pi.ofNat_apply, Nat.cast_ofNat, Nat.cast_one]
+    Pi.neg_apply, Pi.ofNat_apply, Nat.cast_ofNat, Nat.cast_one] <;> ring_congr
 
 /-- `_jacobian` applied to an increment `d`: `(D + diag((ι+N)·2σ))` on the slots ≥ 1, column 0 = `ees² + 1 + σ²` -/
 def jac (D : Arr n →ₗ[ℝ] Arr n) (P : Par n) (x d : Arr n) : Arr n :=
